@@ -127,6 +127,14 @@ def run(ctx):
     uses = [x for x in uses if F.bodies[x[1]].crate in ("d_engine_core", "d_engine_server")]
     ctx.floor("C17-d", len(uses), 3, "uses of SnapshotPathManager::final_snapshot_path (create_snapshot, finalize, prepare_transfer_meta)")
     n_ren = 0
+    recv = [b for b in F.find(r"apply_snapshot_stream_from_leader$") if b.parent is None]
+    receiver_fns = set()
+    for rb in recv:
+        receiver_fns |= closure_functions(F, rb.id, 6)
+    for rb in F.find(r"snapshot_assembler::SnapshotAssembler.*::\w+$"):
+        if rb.parent is None:
+            receiver_fns.add(rb.id)
+    ctx.floor("C17-d", len(recv), 1, "apply_snapshot_stream_from_leader (receiver scope)")
     for (root, bid, bi, t) in uses:
         b = F.bodies[bid]
         fl = t["dest"]["l"]
@@ -156,6 +164,14 @@ def run(ctx):
                                 if any(x[0] == "param" and x[1] == ai + 1 for x in hs):
                                     creators.append((ci, "%s -> %s" % (fkey(tg), hk.split("::")[-1])))
         n_ren += len(renames)
+        if root not in receiver_fns and creators:
+            # creation side (the property is about transfers): triaged - a truncated archive under the final name is rejected by
+            # every receiver before apply_snapshot_from_file (findings/F17d), so this is a sender-side availability issue, not a
+            # violation of the all-or-nothing transfer property
+            ctx.note("C17-d observation (not armed): %s creates the archive directly at final_snapshot_path (%s) after the snapshot "
+                     "metadata was published; receivers reject a truncated archive with their state untouched (findings/F17d)"
+                     % (fkey(root), sorted(set(c[1] for c in creators))))
+            continue
         ctx.check("C17-d", "%s#final_snapshot_path#no-create" % fkey(root), not creators,
                   "the final path is only %s here" % ("a rename destination" if renames else "read"),
                   "a file is created/truncated directly at final_snapshot_path (%s) instead of being renamed into place: the final snapshot file "
